@@ -4,13 +4,16 @@ C14 — Every derived stream property reflects the current state, never a stale 
 
 The memo is content-keyed: a stored value is reused only when the key recomputed
 from the stream's current (phase(s), T, P, composition) equals the key stored with
-the memo.  The theorems say that, for every history of object creations, proxies,
-phase views, state mutations, cache resets and reads, a read returns the value
-computed at the *current* key.  `calc`'s purity in the key (the value depends on
-nothing but phase(s), T, P, composition and the property package, the last of which
-resets the memo when it changes) is the hypothesis under which "computed at the
-current key" means "equal to the value of a fresh stream in the same state"; the
-harness monitors it on the real code.
+the memo.  The property package is NOT part of the key: the code must reset the memo
+whenever it changes.  The theorems say that, for every history of object creations
+(on any package, including `copy(thermo=)`), proxies, phase views, state mutations,
+package changes, cache resets and reads, a read returns the value computed at the
+*current* key with the functions of the object's *current* package.  `calc`'s purity
+in (key, package) — the value depends on nothing but phase(s), T, P, composition and
+the package — is the hypothesis under which "computed at the current key and package"
+means "equal to the value of a fresh stream in the same state"; the harness monitors
+it on the real code, and compares the package the real object uses with the model's
+on every read.
 -/
 namespace ThermoVerif.Props.C14
 open ThermoVerif.PropCache
@@ -20,10 +23,11 @@ structure WF (w : World) : Prop where
   dict_lt : ∀ (o : Nat) (x : Obj), w.objs[o]? = some x → x.dict < w.dicts.length
   unshared : ∀ (o₁ o₂ : Nat) (x₁ x₂ : Obj), w.objs[o₁]? = some x₁ → w.objs[o₂]? = some x₂ → x₁.dict = x₂.dict → o₁ = o₂
 
-/-- The memo invariant: whatever an object's memo holds was computed at the key stored with it. -/
+/-- The memo invariant: whatever an object's memo holds was computed at the key stored with it, with the
+package the object uses now. -/
 def Inv (w : World) : Prop :=
   ∀ (o : Nat) (x : Obj) (k : Nat), w.objs[o]? = some x → x.key = some k →
-    ∀ n v, (n, v) ∈ w.dictOf x.dict → v = k
+    ∀ n v, (n, v) ∈ w.dictOf x.dict → v = (k, x.pkg)
 
 def Good (w : World) : Prop := WF w ∧ Inv w
 
@@ -45,7 +49,7 @@ theorem lookup_mem {α β} [BEq α] [LawfulBEq α] {l : List (α × β)} {a : α
       simp [this] at h
       exact List.mem_cons_of_mem _ (ih h)
 
-theorem good_newObj (w : World) (h : Good w) : Good w.newObj.1 := by
+theorem good_newObj (w : World) (p : Nat) (h : Good w) : Good (w.newObj p).1 := by
   obtain ⟨⟨hd, hu⟩, hi⟩ := h
   refine ⟨⟨?_, ?_⟩, ?_⟩
   · intro o x hx
@@ -89,6 +93,30 @@ theorem good_reset (w : World) (o : Nat) (h : Good w) : Good (w.reset o) := by
   | none => exact h
   | some x => exact good_resetOne _ _ (good_fold_resetOne _ _ h)
 
+theorem good_resetPkgOne (p : Nat) (w : World) (o : Nat) (h : Good w) : Good (World.resetPkgOne p w o) := by
+  obtain ⟨⟨hd, hu⟩, hi⟩ := h
+  unfold World.resetPkgOne World.obj?
+  cases hx : w.objs[o]? with
+  | none => exact ⟨⟨hd, hu⟩, hi⟩
+  | some x =>
+    simp only [World.newDict, World.setObj]
+    refine ⟨⟨?_, ?_⟩, ?_⟩
+    · intro o' x' hx'
+      simp only [List.length_append, List.length_singleton] at hx' ⊢
+      grind
+    · intro o₁ o₂ x₁ x₂ h₁ h₂ he
+      grind
+    · intro o' x' k hx' hk n v hm
+      simp only [World.dictOf] at hm
+      unfold Inv World.dictOf at hi
+      grind
+
+theorem good_fold_resetPkgOne (p : Nat) (l : List Nat) (w : World) (h : Good w) :
+    Good (l.foldl (World.resetPkgOne p) w) := by
+  induction l generalizing w with
+  | nil => exact h
+  | cons a t ih => exact ih _ (good_resetPkgOne p w a h)
+
 /-- changing only the `views` (or nothing) of an object keeps everything -/
 theorem good_setViews (w : World) (o : Nat) (x : Obj) (vs : Nat) (hx : w.objs[o]? = some x)
     (h : Good w) : Good (w.setObj o { x with views := vs }) := by
@@ -111,14 +139,14 @@ theorem good_vlists (w : World) (vl : List (List Nat)) (h : Good w) : Good { w w
 
 theorem good_view (w : World) (o : Nat) (h : Good w) : Good (w.view o).1 := by
   unfold World.view
-  have h1 := good_newObj w h
-  cases hx : w.newObj.1.obj? o with
+  have h1 := good_newObj w (w.pkgOf o) h
+  cases hx : (w.newObj (w.pkgOf o)).1.obj? o with
   | none => simpa [hx] using h1
   | some x =>
     simp only [hx]
     exact good_vlists _ _ h1
 
-theorem good_proxy (w : World) (o : Nat) (h : Good w) : Good (w.proxy o).1 := good_newObj w h
+theorem good_proxy (w : World) (o : Nat) (h : Good w) : Good (w.proxy o).1 := good_newObj w _ h
 
 theorem good_mut (w : World) (o : Nat) (m : Mut) (h : Good w) : Good (w.mut o m) := by
   cases m with
@@ -134,11 +162,20 @@ theorem good_mut (w : World) (o : Nat) (m : Mut) (h : Good w) : Good (w.mut o m)
     cases hx : w.obj? o with
     | none => simpa using h
     | some x => exact good_vlists _ _ (good_setViews _ _ _ _ hx h)
+  | thermo p =>
+    unfold World.mut
+    cases hx : w.obj? o with
+    | none => simpa using h
+    | some x =>
+      simp only
+      split
+      · exact h
+      · exact good_resetPkgOne _ _ _ (good_fold_resetPkgOne _ _ _ h)
 
 /-- Writing object `o`'s key and its (unshared) dict together keeps the invariant, provided the
 new entries were all computed at the new key. -/
-theorem good_write (w : World) (o : Nat) (x : Obj) (k : Nat) (e : List (String × Nat))
-    (hx : w.objs[o]? = some x) (he : ∀ n v, (n, v) ∈ e → v = k) (h : Good w) :
+theorem good_write (w : World) (o : Nat) (x : Obj) (k : Nat) (e : List (String × (Nat × Nat)))
+    (hx : w.objs[o]? = some x) (he : ∀ n v, (n, v) ∈ e → v = (k, x.pkg)) (h : Good w) :
     Good ((w.setObj o { x with key := some k }).setDict x.dict e) := by
   obtain ⟨⟨hd, hu⟩, hi⟩ := h
   have hdx := hd o x hx
@@ -188,7 +225,7 @@ theorem good_readFail (w : World) (o : Nat) (k : Nat) (h : Good w) : Good (w.rea
 /-- One operation preserves the memo invariant. -/
 theorem good_step (w : World) (op : Op) (h : Good w) : Good (w.step op) := by
   cases op with
-  | new => exact good_newObj w h
+  | new p => exact good_newObj w p h
   | proxy o => exact good_proxy w o h
   | view o => exact good_view w o h
   | mutate o m => exact good_mut w o m h
@@ -202,10 +239,10 @@ theorem good_history (ops : List Op) (w : World) (h : Good w) : Good (w.run ops)
   | nil => exact h
   | cons op t ih => exact ih _ (good_step w op h)
 
-/-- The value a read returns was computed at the key of the current state. -/
+/-- The value a read returns was computed at the key of the current state with the object's current package. -/
 theorem read_fresh_of_inv (w : World) (h : Inv w) (o : Nat) (name : String) (k : Nat) :
-    (w.read o name k).2.2 = k := by
-  unfold World.read World.obj?
+    (w.read o name k).2.2 = (k, w.pkgOf o) := by
+  unfold World.read World.pkgOf World.obj?
   cases hx : w.objs[o]? with
   | none => rfl
   | some x =>
@@ -217,20 +254,30 @@ theorem read_fresh_of_inv (w : World) (h : Inv w) (o : Nat) (name : String) (k :
       | none => rfl
     · rfl
 
-/-- **C14.** After any history of creations, proxies, views, mutations, resets and reads, every
-read returns the value computed at the current state's key — never a stale one. -/
+/-- **C14.** After any history of creations (on any package), proxies, views, mutations, package changes,
+resets and reads, every read returns the value computed at the current state's key with the functions of the
+object's current package — never a stale one. -/
 theorem C14_read_fresh (ops : List Op) (o : Nat) (name : String) (k : Nat) :
-    ((World.init.run ops).read o name k).2.2 = k :=
+    ((World.init.run ops).read o name k).2.2 = (k, (World.init.run ops).pkgOf o) :=
   read_fresh_of_inv _ (good_history ops _ good_init).2 o name k
 
 /-- A hit really happens (the statement above is not vacuous because every read misses):
 reading the same property twice in the same state hits the second time. -/
 example :
-    ((World.init.run [.new, .read 0 "H" 7]).read 0 "H" 7).2.1 = Outcome.hit := by decide
+    ((World.init.run [.new 0, .read 0 "H" 7]).read 0 "H" 7).2.1 = Outcome.hit := by decide
 
 /-- …and after the state changed (new key id) the stale entry is not used. -/
 example :
-    ((World.init.run [.new, .read 0 "H" 7]).read 0 "H" 8).2 = (Outcome.miss, 8) := by decide
+    ((World.init.run [.new 0, .read 0 "H" 7]).read 0 "H" 8).2 = (Outcome.miss, (8, 0)) := by decide
+
+/-- …and after the package changed (same key id) it is not used either: the value is recomputed with the
+new package's functions. -/
+example :
+    ((World.init.run [.new 0, .read 0 "H" 7, .mutate 0 (.thermo 3)]).read 0 "H" 7).2 = (Outcome.miss, (7, 3)) := by decide
+
+/-- `_reset_thermo` with the package already in use keeps the memo (a hit). -/
+example :
+    ((World.init.run [.new 3, .read 0 "H" 7, .mutate 0 (.thermo 3)]).read 0 "H" 7).2 = (Outcome.hit, (7, 3)) := by decide
 
 /-! ### The defect that was repaired: a proxy that shares the dict but copies the key -/
 
@@ -238,15 +285,29 @@ example :
 def proxyShared (w : World) (o : Nat) : World :=
   match w.obj? o with
   | none => w
-  | some x => { w with objs := w.objs ++ [{ key := x.key, dict := x.dict, views := x.views }] }
+  | some x => { w with objs := w.objs ++ [{ key := x.key, dict := x.dict, views := x.views, pkg := x.pkg }] }
 
 /-- With the shared-dict proxy the property fails: read `H` on the original in state 1, create a
 proxy, read `H` through the proxy in state 2, return to state 1 and read `H` on the original — the
 answer is the value computed in state 2. -/
 theorem shared_proxy_counterexample :
-    let w₀ := (World.init.run [.new, .read 0 "H" 1])
+    let w₀ := (World.init.run [.new 0, .read 0 "H" 1])
     let w₁ := proxyShared w₀ 0
     let w₂ := (w₁.read 1 "H" 2).1
-    (w₂.read 0 "H" 1).2 = (Outcome.hit, 2) := by decide
+    (w₂.read 0 "H" 1).2 = (Outcome.hit, (2, 0)) := by decide
+
+/-! ### A second way to break it: a package change that keeps the memo -/
+
+/-- `_reset_thermo` / `copy(thermo=)` without `reset_cache()` (the shape of seeded change C14-5). -/
+def thermoKeepsMemo (w : World) (o : Nat) (p : Nat) : World :=
+  match w.obj? o with
+  | none => w
+  | some x => w.setObj o { x with pkg := p }
+
+/-- Then a read in an unchanged state returns the value computed with the OLD package's functions. -/
+theorem package_change_without_reset_counterexample :
+    let w₀ := (World.init.run [.new 0, .read 0 "H" 1])
+    let w₁ := thermoKeepsMemo w₀ 0 3
+    (w₁.read 0 "H" 1).2 = (Outcome.hit, (1, 0)) ∧ w₁.pkgOf 0 = 3 := by decide
 
 end ThermoVerif.Props.C14
